@@ -23,6 +23,7 @@ import (
 	"database/sql"
 	"fmt"
 	"io"
+	"math"
 	"strconv"
 	"strings"
 	"testing"
@@ -210,28 +211,48 @@ func c14IsNow(n *c14Node) bool {
 func c14IntLiteral(n *c14Node) bool { _, ok := c14LitBytes(n); return ok }
 
 func c14LitBytes(n *c14Node) (int64, bool) {
+	// a number literal, or one under a unary minus / plus
+	neg := false
+	if n.kind == "N" && (n.name == "UnaryExpr:-" || n.name == "UnaryExpr:+") && len(n.kids) == 1 {
+		neg = n.name == "UnaryExpr:-"
+		n = n.kids[0]
+	}
 	if n.kind != "L" || n.name != "number" {
 		return 0, false
 	}
-	// the value SQLite gives the literal, and its limit on blob lengths; a larger request is
-	// rejected by SQLite on every node alike ("string or blob too big") and need not be pinned
+	// the value SQLite gives the literal - hexadecimal of up to 16 digits is two's complement - and
+	// what its randomblob does with it: below 1 → one byte; above the limit on blob lengths → an
+	// error on every node alike ("string or blob too big"), which need not be pinned
 	const sqliteMaxLength = 1000000000
 	var v float64
-	if d, err := strconv.ParseUint(n.val, 10, 64); err == nil {
-		v = float64(d)
-	} else if h, err := strconv.ParseUint(n.val, 0, 64); err == nil && strings.HasPrefix(strings.ToLower(n.val), "0x") {
-		v = float64(h)
-	} else if f, err := strconv.ParseFloat(n.val, 64); err == nil && !strings.HasPrefix(strings.ToLower(n.val), "0x") {
+	low := strings.ToLower(n.val)
+	switch {
+	case strings.HasPrefix(low, "0x"):
+		u, err := strconv.ParseUint(low[2:], 16, 64)
+		if err != nil {
+			return 0, false // "hex literal too big": an error everywhere
+		}
+		i := int64(u)
+		if neg && i == math.MinInt64 {
+			return 0, false
+		}
+		v = float64(i)
+	default:
+		f, err := strconv.ParseFloat(n.val, 64)
+		if err != nil && !math.IsInf(f, 0) {
+			return 0, false
+		}
 		v = f
-	} else {
-		return 0, false
+	}
+	if neg {
+		v = -v
 	}
 	if v > sqliteMaxLength {
 		return 0, false
 	}
-	b := int64(v)
-	if b < 1 {
-		b = 1
+	b := int64(1)
+	if v >= 1 {
+		b = int64(v)
 	}
 	return b, true
 }
@@ -501,7 +522,8 @@ func (g *c14Gen) randCall() string {
 		return g.callHead("random") + ")"
 	}
 	arg := g.r.Pick([]string{"16", "4", "1", "0", "007", "0x10", "0X0a", "2.0", "1e1", "-1", "(4)", "2+2", "n",
-		"99999999999", "1000000001", "0x7fffffffffff", "1e10", "99999999999999999999", "0xffffffffffffffffff", "3000000000.5", "-5", "1e999"})
+		"99999999999", "1000000001", "0x7fffffffffff", "1e10", "99999999999999999999", "0xffffffffffffffffff", "3000000000.5", "-5", "1e999",
+		"0xFFFFFFFFFFFFFFFF", "0x8000000000000000", "0x7FFFFFFFFFFFFFFF", "0x10000000000000000", "-0x10", "+4", "-2.5", "-0", "-1e999", "-99999999999999999999", "- 7"})
 	if g.closed && arg == "n" {
 		arg = "3"
 	}
@@ -1096,7 +1118,8 @@ func TestVerifC14(t *testing.T) {
 		}
 	}
 	// meaning A': a pinned random blob has the length SQLite's randomblob would have produced
-	for _, arg := range []string{"16", "4", "1", "0", "007", "010", "0x10", "0X0a", "2.0", "2.9", "1e1", "15e-1", ".5", "3."} {
+	for _, arg := range []string{"16", "4", "1", "0", "007", "010", "0x10", "0X0a", "2.0", "2.9", "1e1", "15e-1", ".5", "3.",
+		"0xFFFFFFFFFFFFFFFF", "0x8000000000000000", "-5", "-0x10", "+4", "-2.5", "-0", "-1e999", "-99999999999999999999"} {
 		text := "SELECT length(randomblob(" + arg + "))"
 		st := []*proto.Statement{{Sql: text}}
 		if err := Process(st, true, true); err != nil {
@@ -1108,7 +1131,8 @@ func TestVerifC14(t *testing.T) {
 		}
 	}
 	// a literal beyond SQLite's blob limit is left alone - and SQLite rejects it, identically everywhere
-	for _, arg := range []string{"99999999999", "1000000001", "0x7fffffffffff", "1e10", "99999999999999999999", "3000000000.5"} {
+	for _, arg := range []string{"99999999999", "1000000001", "0x7fffffffffff", "1e10", "99999999999999999999", "3000000000.5",
+		"0x7FFFFFFFFFFFFFFF", "0x10000000000000000", "-0x8000000000000000", "1e999"} {
 		text := "SELECT length(randomblob(" + arg + "))"
 		st := []*proto.Statement{{Sql: text}}
 		if err := Process(st, true, true); err != nil {
